@@ -463,13 +463,13 @@ package secp256k1
 //@
 //@ func (*Point).ScalarBaseMult
 //@   props C05 C08 C10 C17 C18
-//@   unverified ladder proof in progress
+//@   timeout 40
 //@   ensures v.isValid && abs(v) == smul(old(val(s)), G) && result == v
 //@   modifies *v
 //@
 //@ func (*Point).scalarBaseMultVartime
 //@   props C05 C07
-//@   unverified ladder proof in progress
+//@   timeout 40
 //@   ensures v.isValid && abs(v) == smul(old(val(s)), G) && result == v
 //@   modifies *v
 //@
